@@ -119,6 +119,12 @@ pub fn c12(ctx: &Ctx) -> PropResult {
         ("parse", "IMPORT [\"A\", ] FROM MOD \"MATH\"\n".into()),
         ("runtime", "DISPLAY(\"before\")\nDISPLAY(1 / 0)\nDISPLAY(\"after\")\n".into()),
         ("runtime", "DISPLAY_NOLN(\"partial\")\nundefined_thing\n".into()),
+        // terminal state set by the program is the program's business: nothing is appended to what it displayed
+        ("runtime", "IMPORT MOD \"STYLE\"\nSTYLE(\"red\")\nDISPLAY(\"styled\")\nDISPLAY(1 / 0)\n".into()),
+        ("runtime", "IMPORT MOD \"STYLE\"\nSTYLE(\"bold\")\nSTYLE(\"bg_blue\")\nx <- nope\n".into()),
+        ("ok", "IMPORT MOD \"STYLE\"\nSTYLE(\"underline\")\nDISPLAY(\"left styled\")\n".into()),
+        ("wall", "IMPORT MOD \"ROBOT\"\nIMPORT MOD \"STYLE\"\nSTYLE(\"green\")\nr <- ROBOT_MAP(\"n\")\nMOVE_FORWARD(r)\n".into()),
+        ("lex", "IMPORT MOD \"STYLE\"\nSTYLE(\"red\")\nx = 1\n".into()),
         ("runtime", "IMPORT MOD \"NOPE\"\n".into()),
         ("runtime", "l <- [1]\nDISPLAY(l[2])\n".into()),
         ("wall", "IMPORT MOD \"ROBOT\"\nr <- ROBOT_MAP(\"n\")\nDISPLAY(\"start\")\nMOVE_FORWARD(r)\nDISPLAY(\"unreachable\")\n".into()),
@@ -132,6 +138,12 @@ pub fn c12(ctx: &Ctx) -> PropResult {
     // the source as a byte string: what surrounds it must not matter to any mode, what is inside must reach the lexer intact
     for src in ["DISPLAY(1)\n\\\n", "DISPLAY(1) \\\n\n\n", "  \n\tDISPLAY(2)  \n  ", "DISPLAY(3)\r", "\n\n\nDISPLAY(4)", "DISPLAY(\"trailing blanks in a string   \")   ", "x <- \"unterminated at the very end  ", "DISPLAY(5) \\"] {
         all_programs.push(("bytes", src.to_string()));
+    }
+    // sources larger than typical buffer sizes (64 KiB, 1 MiB), the payload after the padding
+    for size in [65_536usize + 7, 1_048_576 + 13] {
+        let pad = format!("// {}\n", "p".repeat(size));
+        all_programs.push(("big", format!("{pad}DISPLAY(\"after padding\")\n")));
+        all_programs.push(("big", format!("x <- \"{}\"\nDISPLAY(LENGTH(x))\n", "s".repeat(size))));
     }
     // multi-byte characters at every byte offset around 64, 128 and 256 (buffers, previews, debug headers)
     for around in [64usize, 128, 256] {
@@ -165,6 +177,10 @@ pub fn c12(ctx: &Ctx) -> PropResult {
                         }
                         // a NUL byte cannot be passed in a process argument (operating-system limit)
                         if mode == "eval" && (src.starts_with('-') || src.is_empty() || src.contains('\0')) {
+                            continue;
+                        }
+                        // one process argument is limited to 128 KiB by the operating system
+                        if *class == "big" && (mode == "eval" && src.len() > 100_000 || debug != "none") {
                             continue;
                         }
                         cases.push(CliCase { src: src.clone(), class, mode, debug, check, stdin: stdin.to_string() });
@@ -500,6 +516,16 @@ pub fn c13(ctx: &Ctx) -> PropResult {
         }
     }, &|_, _| None, ctx.threads);
 
+    // the process's working directory holds decoys with the names of modules that are missing next to their importer:
+    // imports resolve relative to the importing file only
+    let decoy_dir = scratch_dir("c13-cwd");
+    for name in ["missing_file.ap", "inner.ap", "lib/inner.ap", "a/b/inner.ap", "gone.ap"] {
+        let full = decoy_dir.join(name);
+        let _ = std::fs::create_dir_all(full.parent().unwrap());
+        let _ = std::fs::write(&full, "DISPLAY(\"decoy top-level\")\nEXPORT PROCEDURE inner_fn() {\n RETURN \"decoy\"\n}\nEXPORT PROCEDURE pub_one(x) {\n RETURN \"decoy\"\n}\n");
+    }
+    let old_cwd = std::env::current_dir().ok();
+    let _ = std::env::set_current_dir(&decoy_dir);
     // (b) user modules in a directory tree
     let n = if ctx.quick() { 400 } else { 10_000 };
     let mut trees: Vec<(String, Vec<(String, String)>, String)> = vec![];
@@ -527,6 +553,7 @@ pub fn c13(ctx: &Ctx) -> PropResult {
             1 => module.push_str("x <- (1 + \n"),
             2 => module.push_str("x <- 1 # 2\n"),
             3 => module.push_str(&format!("IMPORT MOD \"inner.ap\"\nDISPLAY(inner_fn())\n")),
+            6 => module.push_str(&format!("IMPORT MOD \"gone.ap\"\nDISPLAY(inner_fn())\n")),
             _ => {}
         }
         let inner = "DISPLAY(\"inner top-level\")\nEXPORT PROCEDURE inner_fn() {\n RETURN \"inner\"\n}\n".to_string();
@@ -603,6 +630,9 @@ pub fn c13(ctx: &Ctx) -> PropResult {
         }
         Verdict { tags: vec![format!("user-module:{kind}"), format!("end:{}", r.class())], sample: main.clone(), nontrivial: true, failure }
     });
+    if let Some(c) = old_cwd {
+        let _ = std::env::set_current_dir(c);
+    }
     let mut stats = stats1;
     stats.merge(collect(verdicts));
     PropResult {
@@ -873,6 +903,17 @@ pub fn c18(ctx: &Ctx) -> PropResult {
         ("parse-only", "IMPORT [\"A\", \"B\"] FROM MOD \"M\"\nIF (a) { b } ELSE { c }\n"),
     ] {
         programs.push((tag.to_string(), src.to_string()));
+    }
+    // rarely taken evaluator branches: FOR EACH over a list its body changes, operand-order cases, procedure limits
+    for (i, src) in crate::props3::for_each_mutation_family().into_iter().enumerate() {
+        if i % 3 == 0 {
+            programs.push(("for-each-mutates-list".into(), src));
+        }
+    }
+    for (i, src) in crate::props2::operand_order_family().into_iter().enumerate() {
+        if i % 7 == 0 {
+            programs.push(("operand-order".into(), src));
+        }
     }
     // identifiers that resemble keywords (another casing), at the start of a statement and inside expressions
     for kw in crate::props4::KEYWORDS_DOC {
